@@ -123,6 +123,8 @@ type world struct {
 	h     *hooks
 	types []*gen.TypeRef
 	defs  map[string]gen.Value // default-valued fields: name -> default literal
+	// intField: the field whose argument has type Int
+	intField string
 }
 
 func newWorld(depth int, vals []jv) (*world, error) {
@@ -130,6 +132,9 @@ func newWorld(depth int, vals []jv) (*world, error) {
 	w := &world{g: g, types: typeList(depth), defs: map[string]gen.Value{}}
 	q := &gen.TypeDef{Kind: gen.KObject, Name: "Query"}
 	for i, t := range w.types {
+		if t.String() == "Int" {
+			w.intField = fmt.Sprintf("t%d", i)
+		}
 		q.Fields = append(q.Fields, &gen.FieldDef{Name: fmt.Sprintf("t%d", i), Type: gen.Named("String"), Args: []*gen.ArgDef{{Name: "v", Type: t}}})
 		// argument defaults: every conformant literal value
 		for j, v := range vals {
@@ -242,6 +247,12 @@ func (w *world) judge(ti int, j jv, vi int) (bads []string, evals int, fids []st
 	switch vd {
 	case model.Reject:
 		reject(fmt.Sprintf("variable $v:%s = %s", t, j.name), rv)
+		// the same bad variable followed by a good one: the request is still rejected
+		if w.intField != "" {
+			evals++
+			q2 := fmt.Sprintf("query($v: %s, $z: Int = 1) { %s(v: $v) z: %s(v: $z) }", t, field, w.intField)
+			reject(fmt.Sprintf("variable $v:%s = %s followed by a valid variable", t, j.name), w.do(q2, vars))
+		}
 	case model.Accept:
 		accept(fmt.Sprintf("variable $v:%s = %s", t, j.name), rv, expectArgs(cv))
 	}
@@ -347,6 +358,9 @@ func run(c *core.Ctx) {
 		{q: `query($a: Int!) { TF(v: [{a: $a}]) }`, vars: []string{"a"}, lit: "[{a: $a}]", typ: "[In]"},
 		{q: `query($i: Int) { TF(v: [[1, $i], [2]]) }`, vars: []string{"i"}, lit: "[[1, $i], [2]]", typ: "[[Int]]"},
 		{q: `query($i: Int) { TF(v: [[$i]]) }`, vars: []string{"i"}, lit: "[[$i]]", typ: "[[Int]]"},
+		// a single item standing for a list, with variables inside
+		{q: `query($a: Int!) { TF(v: {a: $a, b: [1]}) }`, vars: []string{"a"}, lit: "{a: $a, b: [1]}", typ: "[In]"},
+		{q: `query($i: Int) { TF(v: {a: 1, b: [$i]}) }`, vars: []string{"i"}, lit: "{a: 1, b: [$i]}", typ: "[In]"},
 		// empty lists through variables
 		{q: `query($b: [Int]) { TF(v: {a: 1, b: $b}) }`, vars: []string{"b"}, lit: "{a: 1, b: $b}"},
 		{q: `query($l: [[Int]]) { TF(v: $l) }`, vars: []string{"l"}, lit: "$l", typ: "[[Int]]"},
